@@ -111,6 +111,11 @@ impl Queue {
             // Remove the request from the queue.
             let mut res = None;
             self.blocks.send_if_modified(|x| {
+                // A lower block might have been requested while we were waiting for this one
+                // to become available; blocks are handed out lowest first, so wait again.
+                if x.first_key_value().map(|(k, _)| k) != Some(&block_number) {
+                    return false;
+                }
                 res = x.remove_entry(&block_number);
                 // Send iff the lowest requested block changed.
                 res.is_some() && !x.is_empty()
